@@ -180,6 +180,8 @@ def apply(obj, h, tmpdir, counter):
         return obj.map_partitions(lambda d: d)
     if op == "dask_cx":
         return obj.cx[-100:100, -100:100]
+    if op == "dask_pack":
+        return obj.pack_partitions(npartitions=2, p=8)
     if op == "dask_persist":
         return obj.persist()
     if op == "dask_set_geometry":
@@ -335,4 +337,15 @@ def conforms(got, want, obj, cols):
             etb = [float(x) for x in col.array.total_bounds]
             if tb != etb or [float(x) for x in pb] != etb:
                 return False, f"partition bounds are not those of the active column: geometry.total_bounds {tb}, partition_sindex {pb}, expected {etb}"
+            # Hilbert packing uses the active column (whatever the frame's history - it may have been packed by another column before)
+            if len(col) >= 1:
+                try:
+                    packed = obj.pack_partitions(npartitions=1, p=8).compute()
+                except Exception:  # noqa: BLE001
+                    packed = None                      # (Dask cannot split: nothing is claimed)
+                if packed is not None:
+                    want_hd = sorted(int(v) for v in col.array.hilbert_distance(total_bounds=col.array.total_bounds, p=8))
+                    if sorted(int(v) for v in packed.index) != want_hd:
+                        return False, (f"pack_partitions does not index by the Hilbert distances of the active column {want['active']!r}: "
+                                       f"{sorted(int(v) for v in packed.index)}, expected {want_hd}")
     return True, ""
